@@ -6,6 +6,10 @@ pub mod c05;
 pub mod c06;
 pub mod c07;
 pub mod c08;
+pub mod c09;
+pub mod c09_corpus;
+pub mod c09_drv;
+pub mod c09_mut;
 pub mod c10;
 pub mod c11;
 pub mod c12;
@@ -32,6 +36,7 @@ pub fn dispatch(name: &str, args: &[String]) -> i32 {
 		"c06" => c06::run(args),
 		"c07" => c07::run(args),
 		"c08" => c08::run(args),
+		"c09" => c09::run(args),
 		"c10" => c10::run(args),
 		"c11" => c11::run(args),
 		"c12" => c12::run(args),
@@ -71,6 +76,7 @@ fn replay(args: &[String]) -> i32 {
 		"c06" => c06::replay(&v["replay"]),
 		"c07" => c07::replay(&v["replay"]),
 		"c08" => c08::replay(&v["replay"]),
+		"c09" => c09::replay(&v["replay"]),
 		"c10" => c10::replay(&v["replay"]),
 		"c11" => c11::replay(&v["replay"]),
 		"c12" => c12::replay(&v["replay"]),
